@@ -332,6 +332,9 @@ class World(EventDispatcher):
                                       ON_REMOVE_EVENT_NAME,
                                       component, entity, self)
 
+                # Handlers are unsubscribed even if they do not listen
+                # to on_remove
+                if hasattr(component, '__events__'):
                     self.remove_handler(component)
 
             del self._entities[entity]
